@@ -463,7 +463,8 @@ def stress(ctx):
     """Scale: 33, 40, 64, 65 and 130 tables merged in one call (list form,
     metadata-free: the fast path), ids overlapping between neighbours."""
     r = ctx.rng('stress')
-    for k in (33, 40, 64, 65, 130):
+    extra = gen.boundary_sizes(r, 17, 140, 2 if ctx.tier == 'quick' else 10)
+    for k in (33, 40, 64, 65, 130) + tuple(extra):
         specs = []
         for j in range(k):
             obs = ['o%d' % (j % 7), 'o%d' % ((j + 1) % 7), 'only%d' % j]
